@@ -64,8 +64,9 @@ class SigTable:
 
 
 def sig_run(initial, ops):
-    """ops: list of 'D','X','e','s' (well-nested or not: an 'e' with nothing entered is reported as bad-exit).
-    KeyboardInterrupt is counted instead of raised so that the program shape stays the one given."""
+    """ops: list of 'D','X','e','s'.  The default handler really raises KeyboardInterrupt; when that happens the
+    enclosing context managers are left innermost-first (as the interpreter would unwind nested with-blocks) and the
+    program stops.  Returns (ops actually executed, observation line)."""
     import mpire.signal as ms
     tab = SigTable(initial)
     saved = (ms.signal_, ms.getsignal, ms.current_thread, ms.main_thread, ms.SIG_IGN)
@@ -73,45 +74,65 @@ def sig_run(initial, ops):
     ms.signal_, ms.getsignal = tab.signal, tab.getsignal
     ms.current_thread = ms.main_thread = lambda: tok
     ms.SIG_IGN = tab.IGN
-    stack = []
-    ids = {}
-    keep = []
+
+    def dfl(*a):
+        tab.raised += 1
+        raise KeyboardInterrupt
+
+    def ign(*a):
+        tab.dropped += 1
+    # the tokens stored in the slot are callables, like signal.default_int_handler / SIG_IGN behave when invoked by the interpreter
+    tab.DFL, tab.IGN = dfl, ign
+    ms.SIG_IGN = ign
+    tab.h = dfl if initial == 'd' else ign
+    tab._call = lambda h: h(2, None)
+    stack, ids, keep, done = [], {}, [], []
+
+    def leave(exc):
+        m = stack.pop()
+        done.append('e')
+        m.__exit__(type(exc) if exc else None, exc, None)
+
     try:
         for op in ops:
-            if op == 'D':
-                m = ms.DelayedKeyboardInterrupt()
-                m.__enter__()
-                ids[id(m.handler.__self__)] = len(ids)
-                keep.append(m)     # keep every manager alive: object ids must not be reused
-                # the old handler may be the DFL token: DelayedKeyboardInterrupt calls old_handler(*received) on exit
-                stack.append(m)
-            elif op == 'X':
-                m = ms.DisableKeyboardInterruptSignal()
-                m.__enter__()
-                stack.append(m)
-            elif op == 'e':
-                if not stack:
-                    return 'bad-exit'
-                m = stack.pop()
-                if isinstance(m, ms.DelayedKeyboardInterrupt) and not callable(m.old_handler):
-                    # wrap the DFL/IGN tokens so that `self.old_handler(*self.signal_received)` does what the interpreter would
-                    tokn = m.old_handler
-                    m.old_handler = lambda *a, tokn=tokn: tab._call(tokn)
-                    m.__exit__(None, None, None)
-                    tab.h = tokn if tab.h is m.old_handler else tab.h
-                else:
-                    m.__exit__(None, None, None)
-            elif op == 's':
-                tab.deliver()
+            try:
+                if op == 'D':
+                    m = ms.DelayedKeyboardInterrupt()
+                    m.__enter__()
+                    ids[id(m)] = len(ids)
+                    keep.append(m)
+                    stack.append(m)
+                    done.append('D')
+                elif op == 'X':
+                    m = ms.DisableKeyboardInterruptSignal()
+                    m.__enter__()
+                    stack.append(m)
+                    done.append('X')
+                elif op == 'e':
+                    if not stack:
+                        return done, 'bad-exit'
+                    leave(None)
+                elif op == 's':
+                    done.append('s')
+                    tab.h(2, None)
+            except KeyboardInterrupt as e:
+                # unwind the enclosing with-blocks
+                exc = e
+                while stack:
+                    try:
+                        leave(exc)
+                    except KeyboardInterrupt as e2:
+                        exc = e2
+                break
 
         def show(h):
-            if h == tab.DFL:
+            if h is dfl:
                 return 'd'
-            if h == tab.IGN:
+            if h is ign:
                 return 'i'
-            return 'D%d' % ids[id(h.__self__)]
+            return 'D%d' % ids.get(id(getattr(h, '__self__', None)), 99)
         pending = sum(1 for m in stack if isinstance(m, ms.DelayedKeyboardInterrupt) and m.signal_received)
-        return 'handler=%s raised=%d dropped=%d depth=%d pending=%d' % (show(tab.h), tab.raised, tab.dropped, len(stack), pending)
+        return done, 'handler=%s raised=%d dropped=%d depth=%d pending=%d' % (show(tab.h), tab.raised, tab.dropped, len(stack), pending)
     finally:
         ms.signal_, ms.getsignal, ms.current_thread, ms.main_thread, ms.SIG_IGN = saved
 
@@ -251,8 +272,15 @@ def insights_run(n_jobs, durations, args, times):
 
 
 # ---------------------------------------------------------------- exceptions
-class _LocalHolder:
-    pass
+class ReduceHides(Exception):
+    """constructor with extra arguments and its own __reduce__ (the usual recipe) that leaves the instance dict out"""
+
+    def __init__(self, a, b):
+        super().__init__(a, b)
+        self.a, self.b = a, b
+
+    def __reduce__(self):
+        return (ReduceHides, (self.a, self.b))
 
 
 def make_exc(shape):
@@ -287,6 +315,14 @@ def make_exc(shape):
         return KeyboardInterrupt()
     if shape == 'cancelled':
         return asyncio.CancelledError()
+    if shape == 'reduce_hides_lock':
+        e = ReduceHides(1, 'x')
+        e.lock = threading.Lock()
+        return e
+    if shape == 'reduce_ok':
+        return ReduceHides(2, 'y')
+    if shape == 'oserror':
+        return OSError(2, 'No such file', 'name')
     if shape == 'local_attr':
         e = ValueError('la')
         e.obj = type('Dyn', (), {})()
@@ -295,7 +331,7 @@ def make_exc(shape):
 
 
 EXC_SHAPES = ['builtin', 'custom_init', 'attrs', 'lock_attr', 'lambda_arg', 'local_class', 'gen_attr', 'systemexit',
-              'keyboardinterrupt', 'cancelled', 'local_attr']
+              'keyboardinterrupt', 'cancelled', 'local_attr', 'reduce_hides_lock', 'reduce_ok', 'oserror']
 
 
 def exc_run(shape, use_dill, start_method='fork'):
@@ -333,4 +369,8 @@ def exc_run(shape, use_dill, start_method='fork'):
     else:
         kind = 'same'
         faithful = type(rebuilt) is type(err) and rebuilt.args == err.args and rebuilt.__dict__ == err.__dict__
+        # attributes builtin exceptions derive from their arguments
+        for attr in ('errno', 'strerror', 'code'):
+            if hasattr(err, attr) and getattr(rebuilt, attr, None) != getattr(err, attr):
+                faithful = False
     return bits, kind, bool(shipped_ok), bool(faithful), 'Traceback' in str(cause) or 'Exception occurred' in str(cause)
